@@ -428,6 +428,15 @@ def worker(job, r):
             cache = 1 + (k // nshards) % 2
             run_schedule(sess, rng, r, ('add',) + sched if sched[0] != 'add' else sched, cache, 'x%d' % k)
             sess.http_async.clear()
+    elif mode == 'http':
+        for i in range(arg):
+            cache = rng.choice([1, 2, 3, 8, 64])
+            n = rng.choice([6, 15, 40, 120])
+            weights = {'add': 6, 'run': 8, 'ok': 6, 'ok_last': 2, 'clock': 2}
+            sched = rng.choices(HTTP_ACTIONS, weights=[weights.get(a, 1) for a in HTTP_ACTIONS], k=n)
+            m = run_http_schedule(sess, rng, r, sched, cache, 'h%d-%d' % (seed, i), snd_to=rng.choice([10, 10, 3, 0]), rcv_to=rng.choice([10, 10, 3, 0]), maxreq=rng.choice([1000, 1000, 1, 2]))
+            if i == 0:
+                r.sample(dict(transport='http', cache=cache, steps=len(m.trace), trace=m.trace[1:20]))
     else:
         for i in range(arg):
             cache = rng.choice([1, 1, 2, 3, 4, 8, 64])
@@ -453,11 +462,200 @@ def run(ctx):
     ctx.assumptions = ['simulated socket layer and virtual clock (harness/ksi_exec_net.c)', 'justifying events are attributed liberally (any fault on the connection justifies an error of any outstanding request)']
     jobs = [(exe, ctx.env(), ctx.work, ctx.seed * 1000 + i, 'exhaustive', (L, i, 16)) for i in range(16)]
     jobs += [(exe, ctx.env(), ctx.work, ctx.seed * 1000 + 100 + i, 'random', nrand) for i in range(16)]
+    jobs += [(exe, ctx.env(), ctx.work, ctx.seed * 1000 + 200 + i, 'http', nrand) for i in range(8)]
     pool.run(ctx, worker, jobs, workers=16)
     ctx.exhaustive = False
     c = ctx.counters
     if not ctx.violations and not ctx.known_printed:
         ctx.require(c.get('schedules', 0) >= 1000 and c.get('returned_with_response', 0) >= 500, 'schedules run and responses observed')
+
+
+# ------------------------------------------------------------------ HTTP transport (request granularity)
+HTTP_ACTIONS = ['add', 'run', 'ok', 'ok_last', 'other_in_body', 'two_in_body', 'dup_body', 'unknown_id', 'bad_mac', 'err_status', 'err_pdu', 'http_500', 'curl_error', 'garbage', 'empty', 'clock']
+
+
+class HttpMonitor(Monitor):
+    """same sequential model over the asynchronous HTTP client (fake libcurl multi interface): every request is one transfer;
+    a transfer's body may carry any PDUs, a PDU is matched to a request by its id, not by the transfer it arrived on"""
+
+    def __init__(self, sess, rng, r, cache, snd_to, rcv_to, con_to, maxreq, label):
+        self.s, self.rng, self.r, self.cache, self.label = sess, rng, r, cache, label
+        self.snd_to, self.rcv_to, self.con_to = snd_to, rcv_to, con_to
+        self.key = b'anon'
+        self.reqs, self.by_id, self.old_ids = {}, {}, []
+        self.n = 0
+        self.now = 1700000000
+        self.trace = []
+        self.bufs, self.pending, self.fault_tokens, self.desynced = {}, [], 0, set()
+        self.violated = False
+        self.sig_cache = {}
+        self.transfers = {}      # easy id -> Req (transfer in flight)
+        c = sess.cmd
+        c('clock %d' % self.now)
+        c('async_new 0 0 sign')
+        c('async_endpoint 0 set ksi+http://agg.example:80/x anon anon')
+        for k, v in (('cache_size', cache), ('snd_timeout', snd_to), ('rcv_timeout', rcv_to), ('con_timeout', con_to), ('max_request_count', maxreq)):
+            c('async_opt 0 %s %d' % (k, v))
+        sess.http_async.clear()
+
+    def viol(self, key, what):
+        self.violated = True
+        self.r.viol('async-http:' + key, '%s\nconfig: cache=%d snd_to=%d rcv_to=%d\ntrace: %s' % (what, self.cache, self.snd_to, self.rcv_to, ' | '.join(self.trace[-60:])), '\n'.join(self.trace))
+
+    def conns(self):
+        return []
+
+    def absorb_sent(self):
+        for eid, info in self.s.http_async.items():
+            if info.get('seen'):
+                continue
+            info['seen'] = True
+            try:
+                req = S.parse_request(info['body'], 'aggr', 2)
+            except S.BadRequest as e:
+                self.viol('request-malformed', 'transfer body is not a request PDU: %s' % e)
+                continue
+            ok, _ = S.mac_ok(req, self.key)
+            q = self.by_id.get(req['req_id'])
+            if q is None or not ok or req.get('hash') != q.hash:
+                self.viol('request-wrong-content', 'request in a transfer does not match an accepted request (id %s mac %s)' % (req['req_id'], ok))
+                continue
+            if q.sent:
+                self.viol('request-sent-twice', 'request %s sent in two transfers' % q.tag)
+            q.sent = True
+            self.transfers[eid] = q
+
+    def apply_pending(self):
+        if self.fault_tokens > 0:
+            for q in self.outstanding():
+                q.causes.add('unauthenticated / error PDU delivered')
+            self.fault_tokens -= 1
+
+    def complete(self, q, code, cc, body):
+        eid = [e for e, x in self.transfers.items() if x is q]
+        if not eid:
+            return False
+        self.s.cmd('http_complete %d %d %d %s %s' % (eid[0], code, cc, kexec.hx(body), self.rng.choice(['-', '1,1,3', '7'])))
+        del self.transfers[eid[0]]
+        return True
+
+    def do(self, a):
+        if a in ('add', 'run', 'clock'):
+            return Monitor.do(self, a)
+        self.trace.append(a)
+        rng = self.rng
+        inflight = list(self.transfers.values())
+        if inflight:
+            q = inflight[-1] if a == 'ok_last' else rng.choice(inflight)
+            reply = lambda x: S.aggr_response(dict(req_id=x.id), self.sig_for(x), self.key)
+            if a in ('ok', 'ok_last'):
+                if self.complete(q, 200, 0, reply(q)):
+                    q.valid_reply = True
+            elif a == 'other_in_body':
+                others = [x for x in inflight if x is not q and not x.valid_reply]
+                if others:
+                    o = rng.choice(others)
+                    if self.complete(q, 200, 0, reply(o)):
+                        o.valid_reply = True
+                        q.causes.add('its transfer ended without a reply for it')   # it may only end by the receive timeout, see time_causes
+            elif a == 'two_in_body':
+                others = [x for x in inflight if x is not q and not x.valid_reply]
+                body = reply(q) + (reply(others[0]) if others else b'')
+                if self.complete(q, 200, 0, body):
+                    q.valid_reply = True
+                    if others:
+                        others[0].valid_reply = True
+            elif a == 'dup_body':
+                done = [x for x in self.reqs.values() if x.valid_reply]
+                if done:
+                    self.complete(q, 200, 0, reply(rng.choice(done)))
+            elif a == 'unknown_id':
+                self.complete(q, 200, 0, S.aggr_response(dict(req_id=rng.choice([0, 77, 2 ** 40 + 1])), self.sig_for(q), self.key))
+            elif a == 'bad_mac':
+                if self.complete(q, 200, 0, S.aggr_response(dict(req_id=q.id), self.sig_for(q), b'wrong')):
+                    self.cause_all('unauthenticated data', sticky=False)
+                    self.fault_tokens += 1
+            elif a == 'err_status':
+                if self.complete(q, 200, 0, S.aggr_response(dict(req_id=q.id), None, self.key, status=0x101, errmsg='no')):
+                    q.causes.add('service status')
+            elif a == 'err_pdu':
+                if self.complete(q, 200, 0, S.error_pdu('aggr', 2, self.key)):
+                    self.cause_all('error PDU', sticky=False)
+                    self.fault_tokens += 1
+            elif a == 'http_500':
+                if self.complete(q, rng.choice([400, 404, 500, 503]), 0, b'<html>'):
+                    q.causes.add('http error')
+            elif a == 'curl_error':
+                if self.complete(q, 0, rng.choice([6, 7, 28, 52, 56]), b''):
+                    q.causes.add('transport error')
+            elif a == 'garbage':
+                if self.complete(q, 200, 0, reply(q)[:rng.choice([1, 3, 10, 50])]):
+                    q.causes.add('malformed body')
+            elif a == 'empty':
+                self.complete(q, 200, 0, b'')
+        self.absorb_sent()
+        self.time_causes()
+        self.check_counts()
+
+    def drain(self):
+        self.trace.append('DRAIN')
+        s = self.s
+        for rnd in range(2 * self.cache + 8):
+            self.now += 1
+            s.cmd('clock %d' % self.now)
+            self.trace.append('run')
+            self.run()
+            for q in list(self.transfers.values()):
+                if self.complete(q, 200, 0, S.aggr_response(dict(req_id=q.id), self.sig_for(q), self.key)):
+                    q.valid_reply = True
+            if not self.outstanding():
+                break
+        if self.outstanding():
+            self.now += max(self.snd_to, self.rcv_to, self.con_to) + 2
+            s.cmd('clock %d' % self.now)
+            self.time_causes()
+            for rnd in range(2 * self.cache + 4):
+                self.trace.append('run')
+                self.run()
+                self.now += 1
+                s.cmd('clock %d' % self.now)
+                if not self.outstanding():
+                    break
+        left = self.outstanding()
+        if left:
+            self.viol('request-lost', '%d accepted request(s) never handed back: %s' % (len(left), [q.tag for q in left]))
+        self.check_counts()
+        self.flush()
+
+    def flush(self):
+        """end every transfer that is still in flight before the service is released: the curl multi handle belongs to the KSI
+        context and would keep driving transfers of a freed service (observation in DESIGN.md 6.2, outside this property)"""
+        s = self.s
+        for eid in list(self.transfers):
+            s.cmd('http_complete %d 0 7 - -' % eid)
+        self.transfers.clear()
+        for _ in range(3):
+            s.cmd('async_run 0')
+        s.cmd('async_free 0')
+
+
+def run_http_schedule(sess, rng, r, schedule, cache, label, snd_to=10, rcv_to=10, maxreq=1000):
+    sub = rng.getrandbits(48)
+    rng = random.Random(sub)
+    m = HttpMonitor(sess, rng, r, cache, snd_to, rcv_to, 10, maxreq, label)
+    m.trace.append('REPLAY-HTTP %r' % (dict(sub=sub, schedule=list(schedule), cache=cache, label=label, snd_to=snd_to, rcv_to=rcv_to, maxreq=maxreq),))
+    for a in schedule:
+        m.do(a)
+        if m.violated:
+            break
+    if not m.violated:
+        m.drain()
+    else:
+        m.flush()
+    r.observe(hash(tuple(m.trace)) & (2 ** 63 - 1))
+    r.count('http_schedules')
+    r.count('requests_accepted', len(m.reqs))
+    return m
 
 
 def replay(ctx, path):
